@@ -37,6 +37,16 @@ Definition dispatch_c13 (tag : N) (a : list (list N)) : list (list N) :=
   (* monitors: the specification evaluated on bytes the implementation produced *)
   | 1310 => [[b2n (ipv4_hdr_ok (arg a 0))]]
   | 1311 => [[b2n (udp_ok (argn a 0 0) (argn a 0 1) (arg a 1))]]
+  (* what was assembled for a payload that fits a datagram reads back, by offset (RFC 768 / 791), as what was put in *)
+  | 1312 => let u := arg a 2 in
+            [[b2n (udp_wellformed u && (udp_srcport u =? argn a 0 0) && (udp_dstport u =? argn a 0 1) && bytes_eqb (udp_payload u) (arg a 1))]]
+  | 1313 => let p := arg a 2 in
+            [[b2n (ipv4_wellformed p && (ip_ihl p =? 20) && (ip_protocol p =? argn a 0 0) && (ip_source p =? argn a 0 1) &&
+                   (ip_destination p =? argn a 0 2) && (nth0 p 8 =? argn a 0 3) &&
+                   (* the UDP checksum (octets 6-7 of a protocol-17 payload) is filled in while assembling; tag 1311 judges it *)
+                   (if argn a 0 0 =? 17 then bytes_eqb (firstn 6 (ip_payload p)) (firstn 6 (arg a 1)) && bytes_eqb (skipn 8 (ip_payload p)) (skipn 8 (arg a 1))
+                                             && (len (ip_payload p) =? len (arg a 1))
+                    else bytes_eqb (ip_payload p) (arg a 1)))]]
   | _ => [[99]]
   end.
 
